@@ -33,7 +33,7 @@ BODIES = [
 
 def plan(tier, seed):
     q = tier == "quick"
-    return dict(tasks=pool.batches("directives", 6000 if q else 80000, 100) + pool.batches("generated", 600 if q else 8000, 20), nworkers=14, time_cap=80 if q else 800)
+    return dict(tasks=pool.batches("directives", 6000 if q else 80000, 100) + pool.batches("generated", 600 if q else 8000, 20) + pool.batches("modules", 400 if q else 5000, 50), nworkers=14, time_cap=80 if q else 800)
 
 
 def worker_init():
@@ -99,10 +99,18 @@ def gen_case(task, i):
     if r.random() < 0.1:
         src = src.replace("\n", "\r\n")
     base = opts_from_bits(r.randrange(256))
+    if st == "modules":
+        lib = HEADER + _directive(r) + "\ndef f(a):\n    db.Mode = a\n" + (_directive(r) + "\n" if r.random() < 0.5 else "")
+        main = HEADER + ("\n".join(lines[:1]) + "\n" if r.random() < 0.5 and lines[0].strip().startswith("#") else "") + "from library import lib\nlib.f(d0.Setting)\nlib.f(2)\n"
+        return dict(src={"": main, "lib": lib}, base=base, as_dict=r.random() < 0.3, stream=st)
     return dict(src=src, base=base, as_dict=r.random() < 0.3, stream=st)
 
 
 _SEARCHES = 0
+
+
+def neutralise_modules(src):
+    return {k: (v if k == "" else v.replace("pytrapic:", "pytrapiX:")) for k, v in src.items()}
 
 
 def neutralise(src):
@@ -117,19 +125,24 @@ def neutralise(src):
 def check_case(case):
     src, base = case["src"], case["base"]
     expected = H.directive_options(src, base)
-    neutral = neutralise(src)
+    if isinstance(src, dict):
+        # only the main file's directive lines count: the library modules' ones are neutralised as well
+        neutral = neutralise_modules(dict(src, **{"": neutralise(src[""])}))
+    else:
+        neutral = neutralise(src)
     cc, CO = H.repo()
     o1 = dict(base) if case.get("as_dict") else CO(**base)
     o2 = dict(expected) if case.get("as_dict") else CO(**expected)
-    cnt = dict(pairs=1, directive_lines=sum(1 for l in src.split("\n") if l.strip().startswith("#") and "pytrapic:" in l), options_changed=sum(1 for n in OPTION_NAMES if expected[n] != base[n]), raised=0, successes=0, errors=0)
+    main_text = src[""] if isinstance(src, dict) else src
+    cnt = dict(pairs=1, directive_lines=sum(1 for l in main_text.split("\n") if l.strip().startswith("#") and "pytrapic:" in l), options_changed=sum(1 for n in OPTION_NAMES if expected[n] != base[n]), raised=0, successes=0, errors=0)
     vio = []
     try:
-        a = cc(src, o1)
+        a = cc(dict(src) if isinstance(src, dict) else src, o1)
     except Exception as e:
         a = dict(raised=repr(e))
         cnt["raised"] += 1
     try:
-        b = cc(neutral, o2)
+        b = cc(dict(neutral) if isinstance(neutral, dict) else neutral, o2)
     except Exception as e:
         b = dict(raised=repr(e))
     if isinstance(a, dict) and "code" in a:
@@ -160,12 +173,16 @@ def check_case(case):
     res = dict(verdict="violated" if vio else "held", counters=cnt, violations=vio, features=[case.get("stream", "?")])
     if cnt["options_changed"]:
         res["key"] = sha([src, opts_key(base)])
-    res["sample"] = dict(directive_lines=[l for l in src.split("\n") if "pytrapic:" in l][:6], base=opts_key(base), expected=opts_key(expected))
+    elif isinstance(src, dict) and any("pytrapic:" in v for k, v in src.items() if k):
+        res["key"] = sha([src, opts_key(base)])
+    res["sample"] = dict(directive_lines=[l for l in main_text.split("\n") if "pytrapic:" in l][:6], base=opts_key(base), expected=opts_key(expected))
     return res
 
 
 def _trig(src):
     t = []
+    if isinstance(src, dict):
+        src = "\n".join(src.values())
     for ch, name in (("\x0c", "form_feed_before_hash"), ("\u2028", "u2028_before_hash")):
         if ch + "#" in src or ch + " #" in src:
             t.append(name)
